@@ -21,6 +21,7 @@ func init() {
 		c04R4(c)
 		c04R5(c)
 		c04R6(c)
+		c04R7(c)
 	})
 }
 
@@ -225,8 +226,108 @@ func c04R5(c *engine.Ctx) {
 	c.Floor("C04.R5", 1, n)
 }
 
-func c04R6(c *engine.Ctx) {
-	fn := c.MustFunc("C04.R6", "mtproto", "Conn.newEncryptedMessage")
+// c04R7: no stale view of the output buffer. A slice taken from b.Buf is a
+// view of the array b had at that moment; any later write through b may move
+// the contents to a new array, after which a write through the old view is
+// lost (EncodeWithoutCopy back-patches the length field through such a view).
+// Rule: between the load of b.Buf a view derives from and every use of the
+// view as a write target there is no call that receives b.
+func c04R7(c *engine.Ctx) {
+	n := 0
+	for _, name := range []string{"EncryptedMessageData.EncodeWithoutCopy", "EncryptedMessageData.Encode", "EncryptedMessage.Encode", "Cipher.Encrypt", "Cipher.encryptMessage"} {
+		fn := c.Func("crypto", name)
+		if fn == nil {
+			continue
+		}
+		var bufParams []*ssa.Parameter
+		for _, p := range fn.Params {
+			if strings.HasSuffix(p.Type().String(), "bin.Buffer") {
+				bufParams = append(bufParams, p)
+			}
+		}
+		for _, b := range bufParams {
+			engine.Instrs(fn, func(i ssa.Instruction) {
+				ld, ok := i.(*ssa.UnOp)
+				if !ok || ld.Op != token.MUL {
+					return
+				}
+				fa, isFA := ld.X.(*ssa.FieldAddr)
+				if !isFA || engine.FieldNameOf(fa) != "Buf" || fa.X != ssa.Value(b) {
+					return
+				}
+				// views derived from this load that are written through: a
+				// bin.Buffer literal whose Buf is a slice of it, receiving a call
+				seen := map[ssa.Value]bool{}
+				var sinks []ssa.CallInstruction
+				var walk func(v ssa.Value, d int)
+				walk = func(v ssa.Value, d int) {
+					if v == nil || seen[v] || d > 6 || v.Referrers() == nil {
+						return
+					}
+					seen[v] = true
+					for _, r := range *v.Referrers() {
+						switch x := r.(type) {
+						case *ssa.Slice:
+							walk(x, d+1)
+						case *ssa.Store:
+							if x.Val == v {
+								if f2, ok2 := x.Addr.(*ssa.FieldAddr); ok2 {
+									walk(f2.X, d+1) // the struct holding the view
+								}
+							}
+						case ssa.CallInstruction:
+							if x.Common().Value != v || !x.Common().IsInvoke() {
+								sinks = append(sinks, x)
+							}
+						}
+					}
+				}
+				walk(ld, 0)
+				for _, s := range sinks {
+					// a sink that itself receives b is a write through b, not through the view
+					viaB := false
+					for _, a := range engine.Args(s.Common()) {
+						if a == ssa.Value(b) {
+							viaB = true
+						}
+					}
+					if viaB {
+						continue
+					}
+					n++
+					var between []string
+					for _, k := range engine.Calls(fn) {
+						if k == s {
+							continue
+						}
+						takesB := false
+						for _, a := range engine.Args(k.Common()) {
+							if a == ssa.Value(b) {
+								takesB = true
+							}
+						}
+						id := engine.CalleeID(k.Common())
+						if !takesB || id == "(*bin.Buffer).Len" || id == "(bin.Buffer).Len" || id == "(*bin.Buffer).Raw" {
+							continue
+						}
+						if engine.PathExists(ld, k) && engine.PathExists(k, s) {
+							between = append(between, engine.Short(id)+" at "+c.Position(k.Pos()))
+						}
+					}
+					c.Check(len(between) == 0, "C04.R7", name+"/view-of-"+b.Name()+".Buf#"+ordinalCall(fn, s), s.Pos(), "a view of %s.Buf taken at %s is written through here after %s may have grown (and moved) the buffer: %v", b.Name(), c.Position(ld.Pos()), b.Name(), between)
+				}
+			})
+		}
+	}
+	c.Floor("C04.R7", 1, n)
+}
+
+func c04R6(c *engine.Ctx) { c04R6As(c, "C04.R6") }
+
+// c04R6As decides the header-origin rule under the given rule id (C08.R7
+// shares it: the numbers drawn are the numbers sent).
+func c04R6As(c *engine.Ctx, rule string) {
+	fn := c.MustFunc(rule, "mtproto", "Conn.newEncryptedMessage")
 	if fn == nil {
 		return
 	}
@@ -241,11 +342,11 @@ func c04R6(c *engine.Ctx) {
 		}
 		args := engine.Args(call.Common())
 		okKey := sess != nil && engine.Describe(args[1]) == engine.Describe(sess)+".Key"
-		c.Check(okKey, "C04.R6", "newEncryptedMessage/key", call.Pos(), "the message must be encrypted with the current session's key (got %s)", engine.Describe(args[1]))
+		c.Check(okKey, rule, "newEncryptedMessage/key", call.Pos(), "the message must be encrypted with the current session's key (got %s)", engine.Describe(args[1]))
 		// d: the struct passed by value = load of the local d
 		ld, ok := args[2].(*ssa.UnOp)
 		if !ok {
-			c.Undecided("C04.R6", "newEncryptedMessage/data", call.Pos(), "cannot resolve the EncryptedMessageData passed to Encrypt")
+			c.Undecided(rule, "newEncryptedMessage/data", call.Pos(), "cannot resolve the EncryptedMessageData passed to Encrypt")
 			continue
 		}
 		// definitions of d: whole-struct stores (from literals) — each must set the four header fields
@@ -294,12 +395,12 @@ func c04R6(c *engine.Ctx) {
 				}
 			}
 			sort.Strings(bad)
-			c.Check(len(bad) == 0, "C04.R6", key, st.Pos(), "every branch must fill Salt, SessionID, MessageID, SeqNo from the session and the parameters; wrong: %v", bad)
+			c.Check(len(bad) == 0, rule, key, st.Pos(), "every branch must fill Salt, SessionID, MessageID, SeqNo from the session and the parameters; wrong: %v", bad)
 		})
 		// direct field stores into d (no literal) are not used today; if d has no whole-struct definition the rule cannot decide
 		if defs == 0 {
-			c.Undecided("C04.R6", "newEncryptedMessage/definitions", call.Pos(), "no whole-struct definition of the message data found")
+			c.Undecided(rule, "newEncryptedMessage/definitions", call.Pos(), "no whole-struct definition of the message data found")
 		}
 	}
-	c.Floor("C04.R6", 3, n)
+	c.Floor(rule, 3, n)
 }
